@@ -5,7 +5,7 @@ cd "$(dirname "$0")/.."
 for d in "$@"; do
   for f in "$d"/*.diff; do
     [ -s "$f" ] || continue
-    out=$(VERIF_WITNESS_PATCH="$f" bin/skyverif multi all 2>&1); rc=$?
+    out=$(VERIF_WITNESS_PATCH="$f" ${SKYVERIF:-bin/skyverif} multi all 2>&1); rc=$?
     bad=$(echo "$out" | grep "^MULTI" | grep -v "rc=0" | tr '\n' ' ')
     if [ $rc -eq 3 ]; then echo "$f NOT-APPLICABLE"; elif [ -z "$bad" ]; then echo "$f OK"; else echo "$f ALARM $bad"; echo "$out" | grep "FAILED" | cut -c1-400 | sed 's/^/      /'; fi
   done
